@@ -94,6 +94,11 @@ def run(ctx):
     for _ in range(1500 if quick else 25000):
         pts, fam = rdpfam.random_points(ctx, 40 if quick else 200)
         one(ctx, pts, rand_cfg(ctx, pts), fam)
+    for _ in range(3 if quick else 40):
+        pts, fam = rdpfam.long_curve(rng)
+        cfg = rand_cfg(ctx, pts)
+        cfg['t'] = rng.choice([0.05, 0.2, 0.5]) if cfg.get('cost') != 'r2' else rng.choice([0.9, 0.99])
+        one(ctx, pts, cfg, fam)
 
 
 def replay(ctx, body):
